@@ -10,6 +10,7 @@ import Driver.C12
 import Driver.Tcp
 import Driver.C06
 import Driver.C07
+import Driver.C19
 
 /-! Line-protocol driver: `driver <property> model|oracle < ops > out`.
     Stateless properties map each line independently; stateful ones thread a state. -/
@@ -44,6 +45,7 @@ def main (args : List String) : IO UInt32 := do
   | ["C13", mode] => loopState stdin stdout (Driver.Net.step (mode == "oracle")) default; return 0
   | ["C11", mode] => loopState stdin stdout (Driver.Net.step (mode == "oracle")) default; return 0
   | ["C12", mode] => loopState stdin stdout (Driver.C12.step (mode == "oracle")) default; return 0
+  | ["C19", mode] => loopState stdin stdout (Driver.C19.step (mode == "oracle")) default; return 0
   | ["C07", mode] => loopState stdin stdout (Driver.C07.step (mode == "oracle")) default; return 0
   | ["C06", mode] => loopState stdin stdout (Driver.C06.step (mode == "oracle")) default; return 0
   | ["TCP", mode] => loopState stdin stdout (Driver.Tcp.step (mode == "oracle")) default; return 0
